@@ -218,3 +218,21 @@ def _silence_twisted():
   if not getattr(tlog, '_verif_started', False):
     tlog.startLoggingWithObserver(lambda event: None, setStdout=False)
     tlog._verif_started = True
+
+
+def private_conf():
+  """Give this (worker) process its own CONF_DIR.  carbon.storage freezes the file paths at import, so
+  this must run before carbon.storage / carbon.writer are imported in this process."""
+  settings = boot()
+  if 'carbon.storage' in sys.modules:
+    import carbon.storage
+    if os.path.dirname(carbon.storage.STORAGE_SCHEMAS_CONFIG) == settings['CONF_DIR'] and \
+       settings['CONF_DIR'].endswith('-%d' % os.getpid()):
+      return settings['CONF_DIR']
+    raise RuntimeError('carbon.storage already imported with a shared CONF_DIR')
+  conf = os.path.join(scratch(), 'conf-%d' % os.getpid())
+  os.makedirs(conf, exist_ok=True)
+  with open(os.path.join(conf, 'storage-schemas.conf'), 'w') as f:
+    f.write(MIN_SCHEMAS)
+  settings['CONF_DIR'] = conf
+  return conf
